@@ -91,7 +91,7 @@ def sample_stage(cases, budget):
                 nrec += 1
             elif op.get("op") in ("clear", "new"):
                 nrec = 0
-            elif op.get("op") == "search" and nrec <= 6 and len(op.get("q", [])) <= 24:
+            elif op.get("op") == "search" and nrec <= 8 and len(op.get("q", [])) <= 24:
                 cands.append(op)
     if not cands or budget <= 0:
         return 0
